@@ -1,6 +1,8 @@
 mod chain;
 mod dbhist;
 mod docver;
+mod legacy;
+mod storagefam;
 mod pools;
 mod synchist;
 mod util;
@@ -95,6 +97,14 @@ fn main() {
             let p = arg(&args, "--script").expect("--script");
             let s: Value = serde_json::from_str(&std::fs::read_to_string(p).unwrap()).unwrap();
             emit(&mut out, util::guarded(|| dbhist::exec_db(&s)));
+        }
+        "storage" => {
+            for id in first..first + count {
+                emit(&mut out, util::guarded(|| storagefam::gen_storage(seed, id, maxlen)));
+            }
+        }
+        "storage-legacy" => {
+            writeln!(out, "{}", legacy::run(seed, count.max(40))).unwrap();
         }
         "doc-versions" => {
             // --examples <file>: one documented example version per line
